@@ -43,6 +43,13 @@ def jobs(tier, prop="ASSERT_C02"):
                         extra=["TL_SHAPE=%d" % shape, "TL_NRECS=%s" % nrecs],
                         what="harness_src_remove on a single-node IPv4 trie with exactly %s record(s) (shape fixed, all field values "
                              "symbolic) + arbitrary 0/1-node trie of the other family" % (nrecs if shape else "0")))
+    # two-node tries (root + left / right child, one record each): the removed node's content is replaced by
+    # its child's and the node is scanned again -- the path single-node tries cannot reach
+    for nm, shape in (("rootleft", 3), ("rootright", 5)):
+        J.append(op_job("srcremove_v4_d1_%s" % nm, "harness_src_remove", 1, 1, 4, 1800, prop=prop,
+                        extra=["TL_SHAPE=%d" % shape, "TL_NRECS=1,1,1"],
+                        what="harness_src_remove on a two-node IPv4 trie (%s, one record each; shape fixed, all field values "
+                             "symbolic) + arbitrary 0/1-node trie of the other family" % nm))
     J.append(op_job("add_v6_d1", "harness_add", 1, 1, 6, 1500, prop=prop))
     J.append(op_job("remove_v6_d1", "harness_remove", 1, 1, 6, 1500, prop=prop))
     if tier == "thorough":
